@@ -22,7 +22,7 @@ func init() {
 	Register(&Rule{
 		ID:    "R-RELINDEX",
 		Doc:   "every read b[i] (i not a constant) of the input parameter in json's parse* scanners and skipSpaces*: some dominating branch edge establishes i < len(b) or i <= len(b)-k for the same SSA value i (directly, as the condition or a conjunct of a short-circuit condition), or i is a constant offset below a value so bounded and the remaining length was tested; other sites must be in the table of invariants",
-		Props: []string{"C06", "C05", "C11"},
+		Props: []string{"C06", "C05", "C11", "C17"},
 		Min:   map[string]int{"C06": 10},
 		Run:   runRelIndex,
 	})
@@ -32,7 +32,7 @@ func init() {
 var relIndexInvariants = map[string]string{}
 
 func runRelIndex(c *core.Ctx) []core.Obligation {
-	b := newOb(c, "R-RELINDEX", "C06", "C05", "C11")
+	b := newOb(c, "R-RELINDEX", "C06", "C05", "C11", "C17")
 	fns := c.RepoFunctions()
 	sort.Slice(fns, func(i, j int) bool { return shortName(fns[i]) < shortName(fns[j]) })
 	n := 0
